@@ -190,6 +190,47 @@ pub fn c06(tier: Tier) -> i32 {
         rep.merge(&c);
     });
     rep.add("programs_enumerated", n);
+    // rule alphabet: the token classes the rules tell apart, to a larger size than the core
+    // alphabet reaches (a boundary at both ends of a repetition body reached through the branch of
+    // an alternation that is not written last needs size 7: `a<{/a/,a}>`)
+    let env = |k: &str, d: usize| std::env::var(k).ok().and_then(|v| v.parse().ok()).unwrap_or(d);
+    let rules_max = env("WAXMC_C06_RULES_MAX", tier.pick(6usize, 7usize));
+    let boundaries_max = env("WAXMC_C06_BOUNDARIES_MAX", tier.pick(8usize, 9usize));
+    {
+        use rayon::prelude::*;
+        use refmodel::gen::{Gen, GenCfg};
+        for (cfg, from, to, counter) in [
+            (GenCfg::rules(), opts.shape + 1, rules_max, "rule_alphabet_expressions"),
+            (GenCfg::boundaries(), rules_max + 1, boundaries_max, "boundary_alphabet_expressions"),
+        ] {
+            if to < from {
+                continue;
+            }
+            let g = Gen::new(cfg, to);
+            let count = std::sync::atomic::AtomicU64::new(0);
+            let visit = |ast: &Seq| {
+                let mut ast = ast.clone();
+                let text = syntax::print(&mut ast);
+                let mut c = Counters::new();
+                judge(&rep, &mut c, &text, &ast);
+                bump(&mut c, counter, 1);
+                rep.merge(&c);
+                count.fetch_add(1, std::sync::atomic::Ordering::Relaxed);
+            };
+            for size in from..=to {
+                let tasks = g.tasks(size);
+                tasks.par_iter().for_each(|prefix| {
+                    g.for_each_with_prefix(size, prefix, &mut |s: &Seq| visit(s));
+                });
+                if size == g.max_size {
+                    (0..g.top_item_chunks()).into_par_iter().for_each(|c| {
+                        g.for_each_top_item(c, &mut |s: &Seq| visit(s));
+                    });
+                }
+            }
+            rep.add("programs_enumerated", count.load(std::sync::atomic::Ordering::Relaxed));
+        }
+    }
     for text in size_family() {
         let mut c = Counters::new();
         match syntax::parse(&text) {
@@ -205,7 +246,7 @@ pub fn c06(tier: Tier) -> i32 {
         json!({
             "evaluations": evaluations,
             "distinct_nontrivial": distinct,
-            "rule": format!("every expression of the documented syntax with size <= {} over the core alphabet (all arrangements of up to {} branches nested to depth 3 at every position), reduced alphabet up to size {}, the corpus and the size family; Glob::new(e).is_ok() against the three-valued reference rule checker; distinct_nontrivial = expressions with a specified reference verdict", opts.shape, opts.shape - 1, opts.reduced),
+            "rule": format!("every expression of the documented syntax with size <= {} over the core alphabet (all arrangements of up to {} branches nested to depth 3 at every position), reduced alphabet up to size {}, the rule alphabet {{a, /, *, **, {{,}}, <>, <:1,>}} up to size {}, the boundary alphabet {{a, /, {{,}}, <>, <:1,>}} up to size {}, the corpus and the size family; Glob::new(e).is_ok() against the three-valued reference rule checker; distinct_nontrivial = expressions with a specified reference verdict", opts.shape, opts.shape - 1, opts.reduced, rules_max, boundaries_max),
             "exhaustive": true,
         }),
         vec!["the reference rule checker (refmodel::rules) is right where it is specified; error kinds are not compared".into()],
